@@ -74,3 +74,270 @@ Proof.
   - apply (N.log2_le_pow2 (n - 1) 1); [lia|]. change (2 ^ 1) with 2. lia.
   - assert (N.log2 (n - 1) < 28); [|lia]. apply (N.log2_lt_pow2 (n - 1) 28); lia.
 Qed.
+
+(* ---- the in-place algorithm ------------------------------------------------------------------ *)
+Local Open Scope nat_scope.
+
+Section TreeProofs.
+Variable hc : bytes -> bytes -> bytes.
+Notation pairs := (pairs hc).
+Notation perfect := (perfect hc).
+Notation pair_step := (pair_step hc).
+Notation first_loop := (first_loop hc).
+Notation pass := (pass hc).
+Notation halving := (halving hc).
+
+(* both inner loops of tree_hash are this one: rem times { h[j] = hc h[i] h[i+1]; i += 2; j += 1 } *)
+Fixpoint pairloop (rem i j : nat) (h : list bytes) : res (list bytes) :=
+  match rem with
+  | O => Ok h
+  | S r => match pair_step h i j with
+           | Ok h' => pairloop r (i + 2) (j + 1) h'
+           | Err e => Err e
+           | Panic => Panic
+           end
+  end.
+
+Lemma set_nth_app done : forall j x u v, j = length done -> set_nth (done ++ x :: u) j v = Some (done ++ v :: u).
+Proof.
+  induction done as [|d t IH]; intros j x u v Hj; subst j; [reflexivity|].
+  cbn [length app set_nth]. now rewrite (IH (length t) x u v eq_refl).
+Qed.
+
+Lemma nth_error_app_off (done u : list bytes) t : nth_error (done ++ u) (length done + t) = nth_error u t.
+Proof. rewrite nth_error_app2 by lia. f_equal. lia. Qed.
+
+Lemma pair_step_app done x u t a b :
+  nth_error (x :: u) t = Some a -> nth_error (x :: u) (t + 1) = Some b ->
+  pair_step (done ++ x :: u) (length done + t) (length done) = Ok (done ++ hc a b :: u).
+Proof.
+  intros Ha Hb. unfold TreeHash.pair_step.
+  rewrite nth_error_app_off, Ha. rewrite <- Nat.add_assoc, nth_error_app_off, Hb.
+  now rewrite (set_nth_app done (length done) x u (hc a b) eq_refl).
+Qed.
+
+Lemma skipn_two (l : list bytes) : forall t a b,
+  nth_error l t = Some a -> nth_error l (t + 1) = Some b -> skipn t l = a :: b :: skipn (t + 2) l.
+Proof.
+  induction l as [|x l IH]; intros t a b Ha Hb.
+  - destruct t; discriminate Ha.
+  - destruct t as [|t].
+    + cbn [nth_error Nat.add] in Ha, Hb. destruct l as [|y l]; [discriminate Hb|].
+      cbn [nth_error] in Hb. inversion Ha; inversion Hb; subst. reflexivity.
+    + cbn [nth_error Nat.add] in Ha, Hb. cbn [skipn Nat.add]. apply IH; assumption.
+Qed.
+
+Lemma nth_error_lt (l : list bytes) t : t < length l -> exists a, nth_error l t = Some a.
+Proof.
+  intros Ht. destruct (nth_error l t) eqn:E; [eexists; reflexivity|].
+  apply nth_error_None in E. lia.
+Qed.
+
+Lemma pairloop_spec rem : forall done u t i j,
+  j = length done -> i = j + t -> t + 2 * rem <= length u ->
+  pairloop rem i j (done ++ u) = Ok (done ++ pairs (firstn (2 * rem) (skipn t u)) ++ skipn rem u).
+Proof.
+  induction rem as [|r IH]; intros done u t i j Hj Hi Hlen.
+  - rewrite Nat.mul_0_r. reflexivity.
+  - destruct u as [|x u]; [cbn [length] in Hlen; lia|].
+    destruct (nth_error_lt (x :: u) t) as [a Ha]; [lia|].
+    destruct (nth_error_lt (x :: u) (t + 1)) as [b Hb]; [lia|].
+    cbn [pairloop]. subst i j. rewrite (pair_step_app done x u t a b Ha Hb).
+    change (done ++ hc a b :: u) with (done ++ [hc a b] ++ u). rewrite app_assoc.
+    rewrite (IH (done ++ [hc a b]) u (t + 1) (length done + t + 2) (length done + 1)).
+    + rewrite (skipn_two (x :: u) t a b Ha Hb).
+      replace (2 * S r) with (S (S (2 * r))) by lia.
+      replace (t + 2) with (S (t + 1)) by lia.
+      cbn [firstn skipn Spec.TreeHash.pairs]. rewrite <- app_assoc. reflexivity.
+    + rewrite app_length. cbn [length]. lia.
+    + lia.
+    + cbn [length] in Hlen. lia.
+Qed.
+
+Lemma pass_is_pairloop rem : forall i h, pass rem i h = pairloop rem (2 * i) i h.
+Proof.
+  induction rem as [|r IH]; intros i h; [reflexivity|].
+  cbn [TreeHash.pass pairloop]. destruct (pair_step h (2 * i) i) as [h'| |]; try reflexivity.
+  rewrite IH. f_equal; lia.
+Qed.
+
+Lemma first_loop_ok fuel : forall h i j cnt h',
+  j <= cnt -> cnt - j < fuel -> pairloop (cnt - j) i j h = Ok h' ->
+  first_loop fuel h i j cnt = Ok (h', i + 2 * (cnt - j)).
+Proof.
+  induction fuel as [|f IH]; intros h i j cnt h' Hj Hf Hp; [lia|].
+  cbn [TreeHash.first_loop]. destruct (Nat.ltb_spec j cnt) as [Lt|Ge].
+  - replace (cnt - j) with (S (cnt - (j + 1))) in Hp by lia. cbn [pairloop] in Hp.
+    destruct (pair_step h i j) as [h1| |]; try discriminate Hp.
+    rewrite (IH h1 (i + 2) (j + 1) cnt h'); [f_equal; f_equal; lia|lia|lia|exact Hp].
+  - replace (cnt - j) with 0 in * by lia. cbn [pairloop] in Hp. inversion Hp. f_equal. f_equal. lia.
+Qed.
+
+(* ---- lists of pairs --------------------------------------------------------------------------- *)
+Lemma pairs_length m : forall l, length l = 2 * m -> length (pairs l) = m.
+Proof.
+  induction m as [|m IH]; intros l Hl.
+  - destruct l; [reflexivity|cbn [length] in Hl; lia].
+  - destruct l as [|a [|b t]]; cbn [length] in Hl; try lia.
+    cbn [Spec.TreeHash.pairs length]. rewrite IH; [reflexivity|lia].
+Qed.
+
+Lemma pairs_app m : forall A B, length A = 2 * m -> pairs (A ++ B) = pairs A ++ pairs B.
+Proof.
+  induction m as [|m IH]; intros A B HA.
+  - destruct A; [reflexivity|cbn [length] in HA; lia].
+  - destruct A as [|a [|b t]]; cbn [length] in HA; try lia.
+    cbn [app Spec.TreeHash.pairs]. rewrite IH by lia. reflexivity.
+Qed.
+
+(* root of a perfect tree bottom-up: d rounds of pairing *)
+Fixpoint reduce (d : nat) (l : list bytes) : bytes :=
+  match d with O => hd [] l | S d' => reduce d' (pairs l) end.
+
+Lemma reduce_app d : forall A B, length A = 2 ^ d -> length B = 2 ^ d ->
+  reduce (S d) (A ++ B) = hc (reduce d A) (reduce d B).
+Proof.
+  induction d as [|d IH]; intros A B HA HB.
+  - destruct A as [|a [|? ?]]; try discriminate HA. destruct B as [|b [|? ?]]; try discriminate HB. reflexivity.
+  - rewrite Nat.pow_succ_r' in HA, HB.
+    change (reduce (S (S d)) (A ++ B)) with (reduce (S d) (pairs (A ++ B))).
+    rewrite (pairs_app (2 ^ d)) by exact HA.
+    rewrite IH by (apply pairs_length; assumption). reflexivity.
+Qed.
+
+Lemma reduce_perfect d : forall l, length l = 2 ^ d -> reduce d l = perfect d l.
+Proof.
+  induction d as [|d IH]; intros l Hl; [reflexivity|].
+  rewrite Nat.pow_succ_r' in Hl.
+  cbn [Spec.TreeHash.perfect].
+  rewrite <- (IH (firstn (2 ^ d) l)) by (rewrite firstn_length; lia).
+  rewrite <- (IH (skipn (2 ^ d) l)) by (rewrite skipn_length; lia).
+  rewrite <- reduce_app; [now rewrite firstn_skipn|rewrite firstn_length; lia|rewrite skipn_length; lia].
+Qed.
+
+(* ---- the halving passes ------------------------------------------------------------------------ *)
+Lemma firstn_exact (L G : list bytes) n : n = length L -> firstn n (L ++ G) = L.
+Proof. intros ->. rewrite firstn_app, firstn_all, Nat.sub_diag. cbn [firstn]. apply app_nil_r. Qed.
+
+Lemma skipn_app_le (L G : list bytes) c : c <= length L -> skipn c (L ++ G) = skipn c L ++ G.
+Proof. intros Hc. rewrite skipn_app. replace (c - length L) with 0 by lia. reflexivity. Qed.
+
+Lemma pow2_pos k : 1 <= 2 ^ k.
+Proof. pose proof (Nat.pow_nonzero 2 k). lia. Qed.
+
+(* one pass over a prefix L of even length 2c: the first c cells become pairs L *)
+Lemma pass_spec c L G : length L = 2 * c ->
+  pass c 0 (L ++ G) = Ok (pairs L ++ (skipn c L ++ G)).
+Proof.
+  intros HL. rewrite pass_is_pairloop.
+  change (L ++ G) with ([] ++ (L ++ G)) at 1.
+  rewrite (pairloop_spec c [] (L ++ G) 0 (2 * 0) 0); [|reflexivity|reflexivity|rewrite app_length; lia].
+  cbn [app skipn]. rewrite (firstn_exact L G (2 * c)) by lia. rewrite skipn_app_le by lia. reflexivity.
+Qed.
+
+Lemma halving_spec k : forall fuel L G, length L = 2 ^ S k -> k < fuel ->
+  exists L' G', halving fuel (L ++ G) (2 ^ S k) = Ok (L' ++ G') /\ length L' = 2 /\ reduce (S k) L = reduce 1 L'.
+Proof.
+  induction k as [|k IH]; intros fuel L G HL Hf.
+  - destruct fuel as [|f]; [lia|]. cbn [TreeHash.halving]. change (2 ^ 1) with 2. rewrite Nat.ltb_irrefl.
+    exists L, G. split; [reflexivity|]. split; [exact HL|reflexivity].
+  - destruct fuel as [|f]; [lia|]. cbn [TreeHash.halving].
+    pose proof (pow2_pos k) as Hp.
+    assert (E : 2 ^ S (S k) = 2 * 2 ^ S k) by apply Nat.pow_succ_r'.
+    assert (E' : 2 ^ S k = 2 * 2 ^ k) by apply Nat.pow_succ_r'.
+    destruct (Nat.ltb_spec 2 (2 ^ S (S k))) as [_|Ge]; [|lia].
+    assert (Ed : Nat.div2 (2 ^ S (S k)) = 2 ^ S k) by (rewrite E; apply Nat.div2_double).
+    rewrite !Ed. rewrite pass_spec by lia.
+    destruct (IH f (pairs L) (skipn (2 ^ S k) L ++ G)) as [L' [G' [H1 [H2 H3]]]].
+    + apply pairs_length. lia.
+    + lia.
+    + rewrite H1. exists L', G'. split; [reflexivity|]. split; [exact H2|].
+      rewrite <- H3. reflexivity.
+Qed.
+
+(* ---- the whole function -------------------------------------------------------------------------- *)
+Notation tree_hash := (tree_hash hc).
+Notation tree_spec := (tree_spec hc).
+
+Lemma depth_below_facts n : 3 <= n -> (N.of_nat n <= 2 ^ 28)%N ->
+  N.to_nat (pow2_below (N.of_nat n)) = 2 ^ depth_below n /\
+  1 <= depth_below n < 28 /\ 2 ^ depth_below n < n /\ n <= 2 * 2 ^ depth_below n.
+Proof.
+  intros H3 H28. unfold depth_below, pow2_below.
+  assert (E : N.to_nat (2 ^ N.log2 (N.of_nat n - 1)) = 2 ^ N.to_nat (N.log2 (N.of_nat n - 1))).
+  { rewrite N2Nat.inj_pow. reflexivity. }
+  destruct (pow2_below_spec (N.of_nat n)) as [Lo Hi]; [lia|]. unfold pow2_below in Lo, Hi.
+  split; [exact E|].
+  assert (D1 : (1 <= N.log2 (N.of_nat n - 1))%N).
+  { apply (N.log2_le_pow2 (N.of_nat n - 1) 1); [lia|]. change (2 ^ 1)%N with 2%N. lia. }
+  assert (D2 : (N.log2 (N.of_nat n - 1) < 28)%N).
+  { apply (N.log2_lt_pow2 (N.of_nat n - 1) 28); lia. }
+  rewrite <- E. lia.
+Qed.
+
+Lemma tree_hash_correct root extra : (lenN extra < 2 ^ 28)%N ->
+  tree_hash root extra = Ok (tree_spec (root :: extra)).
+Proof.
+  intros Hlen. destruct extra as [|e1 [|e2 rest]]; [reflexivity|reflexivity|].
+  unfold TreeHash.tree_hash, Spec.TreeHash.tree_spec. cbv beta iota.
+  remember (e1 :: e2 :: rest) as extra eqn:Hex.
+  assert (Hn3 : 3 <= S (length extra)) by (subst extra; cbn [length]; lia).
+  set (n := S (length extra)) in *.
+  assert (Hc : (lenN extra + 1 = N.of_nat n)%N) by (unfold lenN, n; lia).
+  rewrite Hc. unfold lenN in Hlen.
+  destruct (tree_hash_cnt_spec (N.of_nat n)) as [Ecnt _]; [lia|lia|]. rewrite Ecnt.
+  destruct (depth_below_facts n Hn3) as [Ec [Hd [Hlo Hhi]]]; [lia|]. rewrite Ec.
+  set (d := depth_below n) in *. set (c := 2 ^ d) in *.
+  destruct (Nat.ltb_spec (2 * c) n) as [Bad|_]; [lia|].
+  set (keep := 2 * c - n).
+  set (hashes := root :: extra).
+  assert (Hlh : length hashes = n) by reflexivity.
+  (* the first loop *)
+  assert (Hsplit : hashes = firstn keep hashes ++ skipn keep hashes) by (symmetry; apply firstn_skipn).
+  assert (Hl1 : length (firstn keep hashes) = keep) by (rewrite firstn_length; lia).
+  assert (Hl2 : length (skipn keep hashes) = 2 * (c - keep)) by (rewrite skipn_length; lia).
+  assert (Hloop : pairloop (c - keep) keep keep hashes =
+                  Ok ((firstn keep hashes ++ pairs (skipn keep hashes)) ++ skipn (c - keep) (skipn keep hashes))).
+  { rewrite Hsplit at 1.
+    rewrite (pairloop_spec (c - keep) (firstn keep hashes) (skipn keep hashes) 0 keep keep); [|lia|lia|lia].
+    rewrite skipn_O. rewrite (@firstn_all2 _ (2 * (c - keep)) (skipn keep hashes)) by lia. now rewrite app_assoc. }
+  assert (Hfl := first_loop_ok (S n) hashes keep keep c _ ltac:(lia) ltac:(lia) Hloop).
+  rewrite Hfl. cbv beta iota.
+  replace (keep + 2 * (c - keep)) with n by lia. rewrite Nat.eqb_refl. cbn [negb].
+  change (depth_below (length hashes)) with d. change (2 ^ d) with c. change (2 * c - length hashes) with keep.
+  set (L := firstn keep hashes ++ pairs (skipn keep hashes)).
+  set (G := skipn (c - keep) (skipn keep hashes)).
+  assert (HL : length L = c).
+  { unfold L. rewrite app_length, Hl1, (pairs_length (c - keep)) by exact Hl2. lia. }
+  clearbody L G. clear Hfl Hloop Hsplit Hl1 Hl2.
+  clearbody d. destruct d as [|k]; [lia|].
+  destruct (halving_spec k 64 L G HL) as [L' [G' [H1 [H2 H3]]]]; [lia|].
+  unfold c. rewrite H1.
+  destruct L' as [|a [|b [|x L']]]; try discriminate H2.
+  cbn [app nth_error]. f_equal.
+  rewrite <- reduce_perfect by exact HL. rewrite H3. reflexivity.
+Qed.
+
+(* beyond the sanity limit the function panics, as the assert says *)
+Lemma tree_hash_panics root extra : (2 ^ 28 <= lenN extra)%N -> tree_hash root extra = Panic.
+Proof.
+  intros Hlen. unfold lenN in Hlen.
+  destruct extra as [|e1 [|e2 rest]].
+  - cbn [length] in Hlen. change (2 ^ 28)%N with 268435456%N in Hlen. lia.
+  - cbn [length] in Hlen. change (2 ^ 28)%N with 268435456%N in Hlen. lia.
+  - unfold TreeHash.tree_hash. cbv beta iota.
+    rewrite tree_hash_cnt_panics; [reflexivity|]. right. unfold lenN. lia.
+Qed.
+
+Lemma tree_hash_list_correct l : (1 <= lenN l <= 2 ^ 28)%N -> tree_hash_list hc l = Ok (tree_spec l).
+Proof.
+  intros Hl. destruct l as [|a r]; [cbn in Hl; lia|].
+  unfold tree_hash_list. apply tree_hash_correct. unfold lenN in *. cbn [length] in Hl. lia.
+Qed.
+
+(* the special cases of the definition agree with the general formula (so the case split is only presentation) *)
+Lemma tree_spec_small a b :
+  tree_spec [a] = perfect (depth_below 1) (firstn (2 * 2 ^ depth_below 1 - 1) [a] ++ pairs (skipn (2 * 2 ^ depth_below 1 - 1) [a])) /\
+  tree_spec [a; b] = perfect (depth_below 2) (firstn (2 * 2 ^ depth_below 2 - 2) [a; b] ++ pairs (skipn (2 * 2 ^ depth_below 2 - 2) [a; b])).
+Proof. split; reflexivity. Qed.
+End TreeProofs.
